@@ -216,6 +216,22 @@ func siblingGuards(info *types.Info, list []ast.Stmt, child ast.Node, out *[]Con
 		if ast.Node(s) == child {
 			return
 		}
+		// a tagless switch whose leading clauses all leave: after it, none of those clauses' conditions held
+		if sw, isSw := s.(*ast.SwitchStmt); isSw && sw.Tag == nil && sw.Init == nil {
+			for _, cl := range sw.Body.List {
+				cc := cl.(*ast.CaseClause)
+				if cc.List == nil {
+					break // default
+				}
+				if !leaves(info, &ast.BlockStmt{List: cc.Body}) || endsInPlainBreak(cc.Body) {
+					break // a clause that falls out of the switch: later conditions were not evaluated on that path
+				}
+				for _, e := range cc.List {
+					splitCond(e, true, cc, out)
+				}
+			}
+			continue
+		}
 		ifs, ok := s.(*ast.IfStmt)
 		if !ok {
 			continue
@@ -334,4 +350,13 @@ func EmptyTest(info *types.Info, c Cond) (ast.Expr, bool, bool) {
 		return call.Args[0], c.Neg, true
 	}
 	return nil, false, false
+}
+
+// endsInPlainBreak: the clause ends with an unlabelled break, which leaves the switch only.
+func endsInPlainBreak(body []ast.Stmt) bool {
+	if len(body) == 0 {
+		return true
+	}
+	b, ok := body[len(body)-1].(*ast.BranchStmt)
+	return ok && b.Tok == token.BREAK && b.Label == nil
 }
